@@ -212,10 +212,18 @@ def replay_collective(inputs):
     geom = inputs.get('geometry', 'line')
     lat = Lattice.orthorhombic(2.0 * max(n, 2), 3.0, 3.0) if geom == 'line' else Lattice(np.array(inputs['lattice']))
     pos = np.array([[(k + 0.25) / max(n, 2), 0.5, 0.5] for k in range(n)]) if geom == 'line' else np.array(inputs['positions'])
-    sites = Structure(lat, ['Li'] * n, pos)
     md = float(inputs.get('max_dist', 2.5))
     df = pd.DataFrame(rows, columns=COLS)
     jumps = types.SimpleNamespace(data=df)
+    if 'site_cell_scale' not in inputs:
+        # first with the sites given in the simulation cell, then with the same sites given in a reference cell 1.5 times as large (the lattice
+        # handed to Collective is the simulation cell: distances are measured there)
+        for sc in (1.0, 1.5):
+            r = replay_collective({**inputs, 'site_cell_scale': sc})
+            if r['reproduced']:
+                return {'reproduced': True, 'detail': (f'sites given in a cell {sc} x the simulation cell: ' if sc != 1.0 else '') + r['detail']}
+        return r
+    sites = Structure(Lattice(np.asarray(lat.matrix) * float(inputs['site_cell_scale'])), ['Li'] * n, pos)
     try:
         c = Collective(jumps=jumps, sites=sites, lattice=lat, max_steps=Wn, max_dist=md)
     except Exception as e:
